@@ -7,7 +7,9 @@
 package c14
 
 import (
+	"fmt"
 	"os"
+	"runtime/debug"
 	"strings"
 
 	"verif/harness/vf"
@@ -23,9 +25,10 @@ type progArgs struct {
 	Level  int
 	Size   int
 	Depth  int
+	Risky  bool // only the crash-prone shapes, one program per shard
 }
 
-const mineBlock = 64
+const mineBlock = 1
 
 // progWorker enumerates one family; cases are sharded in blocks of mineBlock programs.
 func progWorker(w *vf.Worker) {
@@ -33,10 +36,11 @@ func progWorker(w *vf.Worker) {
 	_ = jsonUnmarshal(w.Args, &a)
 	cr := newCaseRunner(w)
 	defer cr.flush()
+	debug.SetMaxStack(48 << 20) // a runaway recursion in the interpreter must die quickly
 	var n uint64
 	mine := false
 	only := os.Getenv("VERIF_C14_ONLY") // debug: substring of the program text
-	emit := func(pc *progCase) {
+	emit := func(build func() *progCase) {
 		if n%mineBlock == 0 {
 			idx := n/mineBlock + 1
 			mine = w.Mine(idx)
@@ -48,6 +52,7 @@ func progWorker(w *vf.Worker) {
 		if !mine {
 			return
 		}
+		pc := build()
 		if only != "" && !strings.Contains(unparse(pc.top, nil), only) {
 			return
 		}
@@ -57,17 +62,25 @@ func progWorker(w *vf.Worker) {
 	switch a.Family {
 	case "scope":
 		genScopeFamily(a, emit)
+	case "coll", "coll-risky":
+		genCollFamily(a, emit)
+	case "fields":
+		genFieldsFamily(a, emit)
+	case "copy":
+		genCopyFamily(a, emit)
 	}
 	w.Count("family:"+a.Family+":enumerated", int64(n)/int64(1)) // every shard enumerates everything; divided by shards in run()
 }
 
-func genScopeFamily(a progArgs, emit func(*progCase)) {
+func genScopeFamily(a progArgs, emit func(func() *progCase)) {
 	g := scopeGen(a.Level)
 	obs := []expr{loc("x"), loc("y")}
 	for n := 0; n <= a.Size; n++ {
 		g.seqs(n, a.Depth, false, nil, func(b []stmt) {
-			top := numberProgram(b, obs, true)
-			emit(&progCase{family: "scope", size: n, top: top, opts: runOpts{q: true}})
+			emit(func() *progCase {
+				top := numberProgram(b, obs, true)
+				return &progCase{family: "scope", size: n, top: top, opts: runOpts{q: true}}
+			})
 		})
 	}
 }
@@ -84,10 +97,38 @@ func run(c *vf.Ctx) {
 			c.RunPool(vf.PoolSpec{Worker: "stack", Shards: 64, Args: sa{2, 7}})
 		}
 	}
-	if c.Quick() {
-		c.RunPool(vf.PoolSpec{Worker: "prog", Shards: 64, Args: progArgs{"scope", 0, 3, 2}})
-	} else {
-		c.RunPool(vf.PoolSpec{Worker: "prog", Shards: 64, Args: progArgs{"scope", 1, 4, 3}})
+	fams := []progArgs{{"scope", 0, 3, 2, false}, {"coll", 0, 1, 0, false}, {"coll-risky", 0, 1, 0, true}, {"fields", 0, 2, 0, false}, {"copy", 0, 1, 0, false}}
+	if !c.Quick() {
+		fams = []progArgs{{"scope", 1, 4, 3, false}, {"coll", 1, 2, 0, false}, {"coll-risky", 1, 1, 0, true}, {"fields", 1, 3, 0, false}, {"copy", 1, 1, 0, false}}
+	}
+	for _, f := range fams {
+		if o := os.Getenv("VERIF_C14_FAMILY"); o != "" && o != f.Family {
+			continue
+		}
+		shards := 64
+		if f.Risky {
+			shards = 512 // one program per shard: a crash must not take other cases' results with it
+		}
+		c.RunPool(vf.PoolSpec{Worker: "prog", Shards: shards, Args: f, CrashKey: crashKey})
 	}
 	c.DistinctNontrivial = c.Evaluations
+}
+
+func crashKey(idx uint64, label, kind, tail string) (string, string) {
+	fam, text := "prog", label
+	if i := strings.Index(label, ": "); i > 0 {
+		fam, text = label[:i], label[i+2:]
+	}
+	cause := kind
+	if strings.Contains(tail, "stack overflow") {
+		cause = "stack-overflow"
+	}
+	first := tail
+	if i := strings.Index(first, "\n\n"); i > 0 {
+		first = first[:i]
+	}
+	if len(first) > 300 {
+		first = first[:300]
+	}
+	return fmt.Sprintf("%s[crash;%s]:%s", fam, cause, text), fmt.Sprintf("`mlr -n put '%s'` (or with the fixed input) kills the process (%s): %s", text, kind, first)
 }
